@@ -172,6 +172,43 @@ func (g *commonGen) template(w *World, name string, b int) []Step {
 			out = append(out, Step{Kind: "confirm", B: b, A: a, Sec: &SecretRef{Kind: "confirm", A: a, Idx: -1}})
 		}
 		return out
+	case "token_flip_sweep":
+		// systematic part of the near-miss space: 64 consecutive single-bit flips
+		// of the 512 token bits (the block is chosen by the run) and every
+		// decoded length around the genuine one, then the genuine token
+		kind, issue, use := "recover", "recover_start", "recover_end"
+		if g.r.Bool() {
+			kind, issue, use = "confirm", "op_start_confirm", "confirm"
+		}
+		out := []Step{{Kind: issue, B: b, A: a}}
+		block := g.r.Intn(8)
+		for i := 0; i < 64; i++ {
+			st := Step{Kind: use, B: b, A: a, Sec: &SecretRef{Kind: kind, A: a, Idx: -1, Mut: fmt.Sprintf("flipbit:%d", block*64+i)}}
+			if use == "recover_end" {
+				st.Sec2 = &SecretRef{Kind: "literal", Lit: "Fresh-Pass9!sweep"}
+			}
+			out = append(out, st)
+		}
+		for _, n := range []int{0, 1, 31, 32, 33, 63} {
+			st := Step{Kind: use, B: b, A: a, Sec: &SecretRef{Kind: kind, A: a, Idx: -1, Mut: fmt.Sprintf("trunc:%d", n)}}
+			if use == "recover_end" {
+				st.Sec2 = &SecretRef{Kind: "literal", Lit: "Fresh-Pass9!sweep"}
+			}
+			out = append(out, st)
+		}
+		for n := 0; n < 6; n++ {
+			st := Step{Kind: use, B: b, A: a, Sec: &SecretRef{Kind: kind, A: a, Idx: -1, Mut: fmt.Sprintf("extend:%d", n)}}
+			if use == "recover_end" {
+				st.Sec2 = &SecretRef{Kind: "literal", Lit: "Fresh-Pass9!sweep"}
+			}
+			out = append(out, st)
+		}
+		gen := Step{Kind: use, B: b, A: a, Sec: &SecretRef{Kind: kind, A: a, Idx: -1}}
+		if use == "recover_end" {
+			gen.Sec2 = &SecretRef{Kind: "literal", Lit: "Fresh-Pass9!sweep"}
+		}
+		w.Stats.Reach[fmt.Sprintf("c05_flip_block_%d", block)]++
+		return append(out, gen)
 	case "token_near_miss":
 		// issue a token, submit several near misses, then the genuine one
 		kind, issue, use := "recover", "recover_start", "recover_end"
